@@ -1,28 +1,31 @@
-(* Evaluator model: a fuel-indexed big-step interpreter for the core language over the dumped syntax tree.
-   It mirrors chaiscript_eval.hpp node by node for the constructs it supports and answers
-   RUnsup for the others (the generators stay inside the supported subset).
+(* Evaluator model, part 1: values, store, primitive effects and the program combinators.
 
    Store: two append-only heaps, as in the implementation —
      objects  (what a shared_ptr<T> inside Boxed_Value::Data points at), and
      data     (Boxed_Value::Data: object pointer + const flag + return-value flag);
-   a Boxed_Value is the index of a data record. `assign` copies a data record (aliasing the object),
-   `clone` allocates a new object.
+   a Boxed_Value is the index of a data record (dloc). `assign` copies a data record (aliasing the
+   object), `clone` allocates a new object.
 
-   Mechanism switches (record cfg): whether arithmetic uses the regenerated tables, whether Id lookups
-   use the per-node hint cache. *)
+   The semantics of every node (Eval.v) is written as a *program* built from a fixed set of
+   primitive effects and a few combinators (Handle, Scoped, Framed, InCall, Loop, Ev). The
+   meta-theorems (stack shape, fuel monotonicity, …) are proved once, by induction on programs,
+   for the primitives and combinators; every node then inherits them. *)
 From Coq Require Import ZArith NArith List Bool String Ascii Floats.SpecFloat.
 From ChaiV Require Import StrUtil NumDefs NumSpecRun Ast.
 Import ListNotations.
 Local Open Scope string_scope.
 
 (* ---------------------------------------------------------------- values *)
+Record dloc := DL { dl : nat }.      (* a Boxed_Value: index of its Data record *)
+Record oloc := OL { ol : nat }.      (* an object *)
+
 Record closure := mkclosure {
   cl_name : string;
   cl_params : list string;
   cl_ptypes : list string;          (* declared parameter type names, "" when untyped *)
   cl_body : ast;
   cl_guard : option ast;
-  cl_caps : list (string * nat);    (* captured Boxed_Values, sorted by name (std::map) *)
+  cl_caps : list (string * dloc);   (* captured Boxed_Values, sorted by name (std::map) *)
   cl_this_capture : bool }.
 
 Inductive fnobj :=
@@ -33,16 +36,16 @@ Inductive obj :=
 | ONum (tyname : string) (t : nty) (v : nval)
 | OBool (b : bool)
 | OStr (s : string)
-| OVec (elems : list nat)
-| OMap (elems : list (string * nat))
+| OVec (elems : list dloc)
+| OMap (elems : list (string * dloc))
 | OFun (f : fnobj)
 | OVoid
 | OExc (static_ty : string) (dyn_ty : string) (what : string)   (* a C++ exception object as seen by catch *)
-| ODyn (cls : string) (attrs : list (string * nat)).
+| ODyn (cls : string) (attrs : list (string * dloc)).
 
-Record data := mkdata { d_obj : option nat; d_const : bool; d_ret : bool }.
+Record data := mkdata { d_obj : option oloc; d_const : bool; d_ret : bool }.
 
-Definition scope := list (string * nat).          (* insertion ordered: QuickFlatMap *)
+Definition scope := list (string * dloc).         (* insertion ordered: QuickFlatMap *)
 Definition frame := list scope.                   (* innermost scope first *)
 
 Record cfg := mkcfg { use_hints : bool }.
@@ -51,11 +54,11 @@ Record state := mkstate {
   s_objs : list obj;
   s_data : list data;
   s_stacks : list frame;                          (* innermost call frame first *)
-  s_globals : list (string * nat);
+  s_globals : list (string * dloc);
   s_funcs : list (string * list closure);         (* overloads in dispatch order *)
   s_out : string;
   s_call_depth : nat;
-  s_call_params : list (list nat);
+  s_call_params : list (list dloc);
   s_hints : list (string * N) }.                  (* Id-node hint cache, keyed by node position+text *)
 
 Definition init_state : state :=
@@ -64,48 +67,27 @@ Definition init_state : state :=
 (* ---------------------------------------------------------------- outcomes *)
 Inductive trace_entry := TE (k : kind) (l : srcloc).
 Inductive exn :=
-| EBoxed (d : nat)                                   (* throw(x): the Boxed_Value itself *)
+| EBoxed (d : dloc)                                  (* throw(x): the Boxed_Value itself *)
 | EEval (reason : string) (stack : list trace_entry) (* chaiscript::exception::eval_error *)
 | EStd (ty : string) (what : string).                (* arithmetic_error, out_of_range, range_error, bad_boxed_cast … *)
 
+(* everything other than normal completion and exhaustion of the model's fuel *)
+Inductive fail :=
+| FRet (d : dloc)        (* detail::Return_Value *)
+| FBreak                 (* detail::Break_Loop *)
+| FCont                  (* detail::Continue_Loop *)
+| FThrow (e : exn)
+| FUnsup (what : string).  (* outside the modelled subset *)
+
 Inductive res (A : Type) :=
 | RVal (a : A)
-| RRet (d : nat)
-| RBreak
-| RCont
-| RThrow (e : exn)
-| RFuel
-| RUnsup (what : string).
-Arguments RVal {A}. Arguments RRet {A}. Arguments RBreak {A}. Arguments RCont {A}.
-Arguments RThrow {A}. Arguments RFuel {A}. Arguments RUnsup {A}.
+| RFail (f : fail)
+| RFuel.
+Arguments RVal {A}. Arguments RFail {A}. Arguments RFuel {A}.
 
 Definition M (A : Type) := state -> res A * state.
-Definition ret {A} (a : A) : M A := fun s => (RVal a, s).
-Definition bind {A B} (m : M A) (f : A -> M B) : M B :=
-  fun s => match m s with
-           | (RVal a, s') => f a s'
-           | (RRet d, s') => (RRet d, s')
-           | (RBreak, s') => (RBreak, s')
-           | (RCont, s') => (RCont, s')
-           | (RThrow e, s') => (RThrow e, s')
-           | (RFuel, s') => (RFuel, s')
-           | (RUnsup w, s') => (RUnsup w, s')
-           end.
-Notation "x <- m ;; f" := (bind m (fun x => f)) (at level 61, m at next level, right associativity).
-Notation "m ;;; f" := (bind m (fun _ => f)) (at level 61, right associativity).
 
-Definition throw {A} (e : exn) : M A := fun s => (RThrow e, s).
-Definition eval_error {A} (reason : string) : M A := throw (EEval reason []).
-Definition unsup {A} (w : string) : M A := fun s => (RUnsup w, s).
-Definition get_state : M state := fun s => (RVal s, s).
-Definition put_state (s' : state) : M unit := fun _ => (RVal tt, s').
-Definition modify (f : state -> state) : M unit := fun s => (RVal tt, f s).
-
-(* run m, then always run the clean-up (RAII destructor), whatever the outcome *)
-Definition bracket {A} (enter : state -> state) (leave : state -> state) (m : M A) : M A :=
-  fun s => let '(r, s') := m (enter s) in (r, leave s').
-
-(* ---------------------------------------------------------------- heap primitives *)
+(* ---------------------------------------------------------------- state plumbing *)
 Fixpoint replace_nth {A} (n : nat) (l : list A) (x : A) : list A :=
   match l, n with
   | [], _ => []
@@ -123,83 +105,17 @@ Definition set_call_depth (s : state) v := mkstate (s_objs s) (s_data s) (s_stac
 Definition set_call_params (s : state) v := mkstate (s_objs s) (s_data s) (s_stacks s) (s_globals s) (s_funcs s) (s_out s) (s_call_depth s) v (s_hints s).
 Definition set_hints (s : state) v := mkstate (s_objs s) (s_data s) (s_stacks s) (s_globals s) (s_funcs s) (s_out s) (s_call_depth s) (s_call_params s) v.
 
-Definition alloc_obj (o : obj) : M nat :=
-  fun s => (RVal (List.length (s_objs s)), set_objs s (app (s_objs s) [o])).
-Definition alloc_data (d : data) : M nat :=
-  fun s => (RVal (List.length (s_data s)), set_data s (app (s_data s) [d])).
-(* a fresh Boxed_Value owning a fresh object *)
-Definition new_value (o : obj) (is_const is_ret : bool) : M nat :=
-  ol <- alloc_obj o ;; alloc_data (mkdata (Some ol) is_const is_ret).
-Definition new_undef : M nat := alloc_data (mkdata None false false).
+Definition assoc {A} (l : list (string * A)) (k : string) : option A :=
+  match find (fun e => String.eqb (fst e) k) l with Some (_, v) => Some v | None => None end.
 
-Definition get_data (d : nat) : M data :=
-  fun s => match nth_error (s_data s) d with Some x => (RVal x, s) | None => (RUnsup "dangling data", s) end.
-Definition set_data_at (d : nat) (x : data) : M unit :=
-  modify (fun s => set_data s (replace_nth d (s_data s) x)).
-Definition get_obj_at (o : nat) : M obj :=
-  fun s => match nth_error (s_objs s) o with Some x => (RVal x, s) | None => (RUnsup "dangling object", s) end.
-Definition set_obj_at (o : nat) (x : obj) : M unit :=
-  modify (fun s => set_objs s (replace_nth o (s_objs s) x)).
-
-(* the object a Boxed_Value holds; None for an undefined value *)
-Definition obj_of (d : nat) : M (option obj) :=
-  x <- get_data d ;;
-  match d_obj x with
-  | None => ret None
-  | Some ol => o <- get_obj_at ol ;; ret (Some o)
-  end.
-
-Definition reset_ret (d : nat) : M unit :=
-  x <- get_data d ;; set_data_at d (mkdata (d_obj x) (d_const x) false).
-(* Boxed_Value::assign: *m_data = *rhs.m_data *)
-Definition assign_data (lhs rhs : nat) : M unit :=
-  x <- get_data rhs ;; set_data_at lhs x.
-
-Definition void_var : M nat := new_value OVoid false false.   (* void_var() is a shared static; only its identity differs *)
-
-(* ---------------------------------------------------------------- scopes and frames (RAII brackets) *)
-Definition push_scope (s : state) : state :=
-  match s_stacks s with f :: r => set_stacks s ((([] : scope) :: f) :: r) | [] => s end.
-Definition pop_scope (s : state) : state :=
-  match s_stacks s with (_ :: f) :: r => set_stacks s (f :: r) | _ => s end.
-Definition push_frame (s : state) : state := set_stacks s ([[]] :: s_stacks s).
-Definition pop_frame (s : state) : state := match s_stacks s with _ :: r => set_stacks s r | [] => s end.
-
-Definition with_scope {A} (m : M A) : M A := bracket push_scope pop_scope m.
-Definition with_frame {A} (m : M A) : M A := bracket push_frame pop_frame m.
-
-(* Function_Push_Pop: new_function_call / pop_function_call *)
-Definition enter_call (s : state) : state := set_call_depth s (S (s_call_depth s)).
-Definition leave_call (s : state) : state :=
-  let d := pred (s_call_depth s) in
-  let s1 := set_call_depth s d in
-  if Nat.eqb d 0 then
-    match s_call_params s1 with _ :: r => set_call_params s1 ([] :: r) | [] => s1 end
-  else s1.
-Definition with_call {A} (m : M A) : M A := bracket enter_call leave_call m.
-Definition save_params (ps : list nat) : M unit :=
-  modify (fun s => match s_call_params s with p :: r => set_call_params s ((app ps p) :: r) | [] => s end).
-
-Fixpoint scope_find (sc : scope) (name : string) (i : nat) : option (nat * nat) :=   (* (slot, value) *)
+Fixpoint scope_find (sc : scope) (name : string) (i : nat) : option (nat * dloc) :=   (* (slot, value) *)
   match sc with
   | [] => None
   | (n, d) :: r => if String.eqb n name then Some (i, d) else scope_find r name (S i)
   end.
 
-(* add_object: insert into the innermost scope of the current frame; a name conflict is an error *)
-Definition add_object (name : string) (d : nat) : M unit :=
-  s <- get_state ;;
-  match s_stacks s with
-  | (sc :: f) :: r =>
-      match scope_find sc name 0 with
-      | Some _ => throw (EStd "name_conflict_error" name)
-      | None => put_state (set_stacks s (((app sc [(name, d)]) :: f) :: r))
-      end
-  | _ => unsup "no scope"
-  end.
-
 (* by-name lookup through the scopes of the current frame, innermost first: (distance, slot, value) *)
-Fixpoint frame_find (f : frame) (name : string) (dist : nat) : option (nat * nat * nat) :=
+Fixpoint frame_find (f : frame) (name : string) (dist : nat) : option (nat * nat * dloc) :=
   match f with
   | [] => None
   | sc :: r => match scope_find sc name 0 with
@@ -208,8 +124,162 @@ Fixpoint frame_find (f : frame) (name : string) (dist : nat) : option (nat * nat
                end
   end.
 
-Definition assoc {A} (l : list (string * A)) (k : string) : option A :=
-  match find (fun e => String.eqb (fst e) k) l with Some (_, v) => Some v | None => None end.
+(* RAII brackets *)
+Definition push_scope (s : state) : state :=
+  match s_stacks s with f :: r => set_stacks s ((([] : scope) :: f) :: r) | [] => s end.
+Definition pop_scope (s : state) : state :=
+  match s_stacks s with (_ :: f) :: r => set_stacks s (f :: r) | _ => s end.
+Definition push_frame (s : state) : state := set_stacks s ([[]] :: s_stacks s).
+Definition pop_frame (s : state) : state := match s_stacks s with _ :: r => set_stacks s r | [] => s end.
+(* Function_Push_Pop: new_function_call / pop_function_call *)
+Definition enter_call (s : state) : state := set_call_depth s (S (s_call_depth s)).
+Definition leave_call (s : state) : state :=
+  let d := pred (s_call_depth s) in
+  let s1 := set_call_depth s d in
+  if Nat.eqb d 0 then
+    match s_call_params s1 with _ :: r => set_call_params s1 ([] :: r) | [] => s1 end
+  else s1.
+
+(* ---------------------------------------------------------------- primitive effects *)
+Inductive prim : Type -> Type :=
+| PAllocObj (o : obj) : prim oloc
+| PAllocData (d : data) : prim dloc
+| PGetData (d : dloc) : prim data
+| PSetData (d : dloc) (x : data) : prim unit
+| PGetObj (o : oloc) : prim obj
+| PSetObj (o : oloc) (x : obj) : prim unit
+| PAddObject (name : string) (d : dloc) : prim bool                 (* false: the name exists in the innermost scope *)
+| PFindLocal (name : string) : prim (option (nat * nat * dloc))     (* by name: (scope distance, slot, value) *)
+| PSlot (dist slot : nat) : prim (option dloc)                      (* stack[size-1-dist].at_index(slot) *)
+| PThisCandidate : prim (option dloc)                               (* value of the newest entry of the innermost scope if it is named __this *)
+| PGetHint (key : string) : prim (option N)
+| PSetHint (key : string) (h : N) : prim unit
+| PGetGlobal (name : string) : prim (option dloc)
+| PGetFuncs (name : string) : prim (option (list closure))
+| PSetFuncs (name : string) (l : list closure) : prim unit
+| POut (text : string) : prim unit
+| PSaveParams (ps : list dloc) : prim unit.
+
+Definition run_prim {A} (p : prim A) : M A :=
+  match p in prim T return M T with
+  | PAllocObj o => fun s => (RVal (OL (List.length (s_objs s))), set_objs s (app (s_objs s) [o]))
+  | PAllocData d => fun s => (RVal (DL (List.length (s_data s))), set_data s (app (s_data s) [d]))
+  | PGetData d => fun s => match nth_error (s_data s) (dl d) with Some x => (RVal x, s) | None => (RFail (FUnsup "dangling data"), s) end
+  | PSetData d x => fun s => (RVal tt, set_data s (replace_nth (dl d) (s_data s) x))
+  | PGetObj o => fun s => match nth_error (s_objs s) (ol o) with Some x => (RVal x, s) | None => (RFail (FUnsup "dangling object"), s) end
+  | PSetObj o x => fun s => (RVal tt, set_objs s (replace_nth (ol o) (s_objs s) x))
+  | PAddObject name d =>
+      fun s => match s_stacks s with
+               | (sc :: f) :: r =>
+                   match scope_find sc name 0 with
+                   | Some _ => (RVal false, s)
+                   | None => (RVal true, set_stacks s (((app sc [(name, d)]) :: f) :: r))
+                   end
+               | _ => (RFail (FUnsup "no scope"), s)
+               end
+  | PFindLocal name => fun s => (RVal (frame_find (match s_stacks s with f :: _ => f | [] => [] end) name 0), s)
+  | PSlot dist slot =>
+      fun s => (RVal (match nth_error (match s_stacks s with f :: _ => f | [] => [] end) dist with
+                      | Some sc => match nth_error sc slot with Some (_, d) => Some d | None => None end
+                      | None => None
+                      end), s)
+  | PThisCandidate =>
+      fun s => (RVal (match s_stacks s with
+                      | (sc :: _) :: _ => match last sc ("", DL 0) with (nm, d) => if String.eqb nm "__this" then Some d else None end
+                      | _ => None
+                      end), s)
+  | PGetHint key => fun s => (RVal (assoc (s_hints s) key), s)
+  | PSetHint key h => fun s => (RVal tt, set_hints s ((key, h) :: s_hints s))
+  | PGetGlobal name => fun s => (RVal (assoc (s_globals s) name), s)
+  | PGetFuncs name => fun s => (RVal (assoc (s_funcs s) name), s)
+  | PSetFuncs name l =>
+      fun s => (RVal tt, set_funcs s (match assoc (s_funcs s) name with
+                                      | None => app (s_funcs s) [(name, l)]
+                                      | Some _ => map (fun e => if String.eqb (fst e) name then (name, l) else e) (s_funcs s)
+                                      end))
+  | POut text => fun s => (RVal tt, set_out s (s_out s ++ text))
+  | PSaveParams ps => fun s => (RVal tt, match s_call_params s with p :: r => set_call_params s ((app ps p) :: r) | [] => s end)
+  end.
+
+(* ---------------------------------------------------------------- programs *)
+Inductive prog : Type -> Type :=
+| Ret : forall {A}, A -> prog A
+| Fail : forall {A}, fail -> prog A
+| Prim : forall {A}, prim A -> prog A
+| Handle : forall {A B}, prog A -> (A + fail -> prog B) -> prog B   (* run, then continue on either outcome *)
+| Scoped : forall {A}, prog A -> prog A      (* Scope_Push_Pop *)
+| Framed : forall {A}, prog A -> prog A      (* Stack_Push_Pop *)
+| InCall : forall {A}, prog A -> prog A      (* Function_Push_Pop *)
+| Ev : ast -> prog dloc                      (* evaluate a sub-term *)
+| Loop : prog bool -> prog unit.             (* repeat while the body answers true *)
+
+Definition Bind {A B} (p : prog A) (f : A -> prog B) : prog B :=
+  Handle p (fun r => match r with inl a => f a | inr e => Fail e end).
+Notation "x <- m ;; f" := (Bind m (fun x => f)) (at level 61, m at next level, right associativity).
+Notation "m ;;; f" := (Bind m (fun _ => f)) (at level 61, right associativity).
+
+Definition bracket {A} (enter leave : state -> state) (m : M A) : M A :=
+  fun s => let '(r, s') := m (enter s) in (r, leave s').
+
+Fixpoint loop_run (k : nat) (body : M bool) : M unit :=
+  match k with
+  | O => fun s => (RFuel, s)
+  | S k' => fun s => match body s with
+                     | (RVal true, s') => loop_run k' body s'
+                     | (RVal false, s') => (RVal tt, s')
+                     | (RFail f, s') => (RFail f, s')
+                     | (RFuel, s') => (RFuel, s')
+                     end
+  end.
+
+(* `ev`: the evaluator for sub-terms; `k`: the bound on loop iterations (both come from the fuel) *)
+Fixpoint run (ev : ast -> M dloc) (k : nat) {A} (p : prog A) : M A :=
+  match p in prog T return M T with
+  | Ret a => fun s => (RVal a, s)
+  | Fail f => fun s => (RFail f, s)
+  | Prim op => run_prim op
+  | Handle p h =>
+      fun s => match run ev k p s with
+               | (RVal a, s') => run ev k (h (inl a)) s'
+               | (RFail f, s') => run ev k (h (inr f)) s'
+               | (RFuel, s') => (RFuel, s')
+               end
+  | Scoped p => bracket push_scope pop_scope (run ev k p)
+  | Framed p => bracket push_frame pop_frame (run ev k p)
+  | InCall p => bracket enter_call leave_call (run ev k p)
+  | Ev n => ev n
+  | Loop body => loop_run k (run ev k body)
+  end.
+
+(* ---------------------------------------------------------------- derived operations *)
+Definition throw {A} (e : exn) : prog A := Fail (FThrow e).
+Definition eval_error {A} (reason : string) : prog A := throw (EEval reason []).
+Definition unsup {A} (w : string) : prog A := Fail (FUnsup w).
+
+(* a fresh Boxed_Value owning a fresh object *)
+Definition new_value (o : obj) (is_const is_ret : bool) : prog dloc :=
+  l <- Prim (PAllocObj o) ;; Prim (PAllocData (mkdata (Some l) is_const is_ret)).
+Definition new_undef : prog dloc := Prim (PAllocData (mkdata None false false)).
+Definition void_var : prog dloc := new_value OVoid false false.   (* void_var() is a shared static; only its identity differs *)
+
+(* the object a Boxed_Value holds; None for an undefined value *)
+Definition obj_of (d : dloc) : prog (option obj) :=
+  x <- Prim (PGetData d) ;;
+  match d_obj x with
+  | None => Ret None
+  | Some l => o <- Prim (PGetObj l) ;; Ret (Some o)
+  end.
+
+Definition reset_ret (d : dloc) : prog unit :=
+  x <- Prim (PGetData d) ;; Prim (PSetData d (mkdata (d_obj x) (d_const x) false)).
+(* Boxed_Value::assign: *m_data = *rhs.m_data *)
+Definition assign_data (lhs rhs : dloc) : prog unit :=
+  x <- Prim (PGetData rhs) ;; Prim (PSetData lhs x).
+
+(* add_object: a name conflict in the innermost scope is an error *)
+Definition add_object (name : string) (d : dloc) : prog unit :=
+  ok <- Prim (PAddObject name d) ;;
+  if ok : bool then Ret tt else throw (EStd "name_conflict_error" name).
 
 (* ---------------------------------------------------------------- builtin names the model knows *)
 Definition builtin_names : list string :=
@@ -227,53 +297,53 @@ Definition hint_is_local (h : N) : bool := N.testbit h 30.
 Definition hint_dist (h : N) : nat := N.to_nat (N.modulo (N.div h 65536) 4096).
 Definition hint_slot (h : N) : nat := N.to_nat (N.modulo h 65536).
 
-Definition lookup_nonlocal (name : string) : M nat :=
-  s <- get_state ;;
-  match assoc (s_globals s) name with
-  | Some d => ret d
+Definition lookup_nonlocal (name : string) : prog dloc :=
+  g <- Prim (PGetGlobal name) ;;
+  match g with
+  | Some d => Ret d
   | None =>
-      match assoc (s_funcs s) name with
+      fs <- Prim (PGetFuncs name) ;;
+      match fs with
       | Some _ => new_value (OFun (FNamed name)) true false
       | None => if existsb (String.eqb name) builtin_names then new_value (OFun (FNamed name)) true false
                 else eval_error ("Can not find object: " ++ name)
       end
   end.
 
-Definition lookup_id (c : cfg) (n : ast) : M nat :=
+Definition lookup_by_name (c : cfg) (n : ast) : prog dloc :=
   let name := a_text n in
-  s <- get_state ;;
-  let cur := match s_stacks s with f :: _ => f | [] => [] end in
-  let by_name :=
-    match frame_find cur name 0 with
-    | Some (dist, slot, d) =>
-        (if use_hints c then modify (fun s => set_hints s ((hint_key n, hint_local dist slot) :: s_hints s)) else ret tt) ;;; ret d
-    | None =>
-        (if use_hints c then modify (fun s => set_hints s ((hint_key n, hint_nonlocal) :: s_hints s)) else ret tt) ;;; lookup_nonlocal name
-    end in
+  r <- Prim (PFindLocal name) ;;
+  match r with
+  | Some (dist, slot, d) =>
+      (if use_hints c then Prim (PSetHint (hint_key n) (hint_local dist slot)) else Ret tt) ;;; Ret d
+  | None =>
+      (if use_hints c then Prim (PSetHint (hint_key n) hint_nonlocal) else Ret tt) ;;; lookup_nonlocal name
+  end.
+
+Definition lookup_id (c : cfg) (n : ast) : prog dloc :=
   if use_hints c then
-    match assoc (s_hints s) (hint_key n) with
-    | None => by_name
+    h <- Prim (PGetHint (hint_key n)) ;;
+    match h with
+    | None => lookup_by_name c n
     | Some h =>
         if hint_is_local h then
           (* stack[size-1-d].at_index(i): unchecked in the implementation; out of range is undefined behaviour *)
-          match nth_error cur (hint_dist h) with
-          | Some sc => match nth_error sc (hint_slot h) with
-                       | Some (_, d) => ret d
-                       | None => unsup "UB:hint slot out of range"
-                       end
-          | None => unsup "UB:hint scope out of range"
+          r <- Prim (PSlot (hint_dist h) (hint_slot h)) ;;
+          match r with
+          | Some d => Ret d
+          | None => unsup "UB:hint slot out of range"
           end
-        else lookup_nonlocal name
+        else lookup_nonlocal (a_text n)
     end
-  else by_name.
+  else lookup_by_name c n.
 
 (* ---------------------------------------------------------------- small helpers over values *)
 Definition is_arith (o : option obj) : bool := match o with Some (ONum _ _ _) => true | _ => false end.
 
-Definition get_bool (d : nat) : M bool :=
+Definition get_bool (d : dloc) : prog bool :=
   o <- obj_of d ;;
   match o with
-  | Some (OBool b) => ret b
+  | Some (OBool b) => Ret b
   | _ => eval_error "Condition not boolean"
   end.
 
@@ -292,20 +362,20 @@ Definition type_name_of (o : option obj) : string :=
   end.
 
 (* clone_if_necessary *)
-Definition clone_obj (o : obj) : M nat :=
+Definition clone_obj (o : obj) : prog dloc :=
   match o with
   | ONum _ _ _ | OBool _ | OStr _ => new_value o false false
   | OVec _ | OMap _ => new_value o false true     (* copy constructor through dispatch: a returned value; elements stay shared Boxed_Values *)
   | OFun _ => new_value o false true              (* clone of a function shares the (immutable) function object *)
   | _ => unsup "clone of this kind of value"
   end.
-Definition clone_if_necessary (d : nat) : M nat :=
-  x <- get_data d ;;
-  if d_ret x then reset_ret d ;;; ret d
+Definition clone_if_necessary (d : dloc) : prog dloc :=
+  x <- Prim (PGetData d) ;;
+  if d_ret x then reset_ret d ;;; Ret d
   else
     o <- obj_of d ;;
     match o with
-    | Some ob => c <- clone_obj ob ;; reset_ret c ;;; ret c
+    | Some ob => c <- clone_obj ob ;; reset_ret c ;;; Ret c
     | None => unsup "clone of undefined value"
     end.
 
